@@ -1,6 +1,6 @@
 """utils/migration.py (C20) and utils/testing.py (C19)."""
 from pyvc.dsl import *
-from pyvc.prims import all_of, any_of
+from pyvc.prims import all_of, any_of, same_map
 
 TaskU = U('MTask')
 DataClsU = U('DataCls')
@@ -93,5 +93,140 @@ CONTRACTS = [
         ensures={'target': 'mig_target', 'dry_pure': 'mig_dry', 'frame': 'mig_frame'},
         loops={0: Loop('mig_inv', vars={'name': Str, 'old_task': TaskU, 'new_task': TaskU}, fs=True, step={'copy_exact': 'mig_step'})},
         crash_invariant={}, may_raise=['AssertionError', 'FileNotFoundError', 'FileExistsError', 'SameFileError', 'KeyError'], l0=['A-fs', 'A-dict'], searchable=False,
+    ),
+]
+
+
+# ------------------------------------------------------------------------------------------------
+# utils/testing.py  (C19): TestChain._create_tasks, _prepare, MockTask, create_test_task
+# ------------------------------------------------------------------------------------------------
+import z3 as _z3
+TClsU = U('TCls')           # a task class given to the helper
+HTaskU = U('HTask')         # a task object of the helper chain (real task or mock)
+MockValU = U('MockVal')     # a value supplied for a mocked task
+U_ATTRS.update({'TCls': {'created': HTaskU},                       # the object Chain._create_task(cls, chain.config) returns
+                'HTask': {'is_mock': Bool, 'mock_value': MockValU},
+                'MockVal': {'as_mock': HTaskU}})
+U_PURE_METHODS = {'TCls': {'fullname': Str}}                        # task_class.fullname(chain.config)
+
+
+def _mock_ctor(ex, cv, args, kwargs):
+    """MockTask(value): an object whose is_mock flag is set and whose supplied value is `value` (MockTask.__init__ and
+    .value are under contract C19.mock.*)"""
+    from pyvc import pyops as P_
+    v = args[0]
+    t = P_.getattr_(ex, v, 'as_mock')
+    ex.run.axiom(_z3.And(P_.getattr_(ex, t, 'is_mock').t, P_.getattr_(ex, t, 'mock_value').t == v.t))
+    return t
+
+
+def create_spec(task_class, config, task_registry):
+    return task_class.created
+
+
+def create_post(task_class, config, task_registry, result):
+    """what _create_task makes is a task of the given class, not a mock"""
+    return not result.is_mock
+
+
+TestCfgIface = Iface('TestCfgIface', props={'name': Prop(Str)})
+
+
+def test_chain_obj():
+    return Obj('taskchain.utils.testing:TestChain', _tasks=SymList(TClsU, 'given_classes'), _mock_tasks=SymDict(Str, MockValU, 'mocks'),
+               config=Abs(TestCfgIface, 'test_config'))
+
+
+def given_tasks(self):
+    """the tasks of the given classes: full name -> what Chain._create_task(cls, chain.config) makes; a later class of the
+    same full name replaces an earlier one"""
+    return {c.fullname(self.config): c.created for c in self._tasks}
+
+
+def ctk_inv0(self, done, tasks):
+    cfg = self.config
+    return same_map(tasks, {c.fullname(cfg): c.created for c in done})
+
+
+def ctk_inv1(self, done, tasks, k, xs):
+    """mocks are entered over whatever is there: every mock so far is in place under its name; every other entry is the
+    given class's task, and every given class's name still has an entry"""
+    t0 = given_tasks(self)
+    return all_of(all(xs[i][0] in tasks and tasks[xs[i][0]] == xs[i][1].as_mock for i in range(k)),
+                  all(any_of(n in self._mock_tasks, n in t0 and tasks[n] == t0[n]) for n in tasks),
+                  all(n in tasks for n in t0))
+
+
+def ctk_mocks(self, result):
+    """every mocked name maps to the object MockTask(supplied value) - also when a given class has that name
+    (MockTask.__init__ / .value are under contract C19.mock.*: that object returns exactly the supplied value)"""
+    return all(m in result and result[m] == v.as_mock for m, v in self._mock_tasks.items())
+
+
+def ctk_real(self, result):
+    """every given class that is not mocked is in the chain under its full name, as the task _create_task makes (the
+    constructor path of a real chain); every given name has an entry; nothing else is in the chain"""
+    t0 = given_tasks(self)
+    return all_of(all(n in result for n in t0),
+                  all(any_of(n in self._mock_tasks, n in t0 and result[n] == t0[n]) for n in result))
+
+
+def ctk_canary(self, result):
+    return len(result) == 0
+
+
+def mock_value_post(self, result, trace):
+    """a mocked task returns the supplied value; nothing runs, nothing is loaded or stored"""
+    return result == self._value and trace.length == 0
+
+
+def mock_init_post(self, value, trace):
+    return self._value == value and trace.count('Task.__init__') == 1
+
+
+def prep_order(self, trace):
+    """construction: the config is processed, tasks are created, THEN dependencies of exactly those tasks are processed
+    (a missing input is reported here, i.e. while the helper is being constructed), then graph and objects"""
+    return all_of(trace.count('_process_config') == 1, trace.count('_create_tasks') == 1, trace.count('_process_dependencies') == 1,
+                  trace.index('_process_config') < trace.index('_create_tasks'),
+                  trace.index('_create_tasks') < trace.index('_process_dependencies'),
+                  trace.arg('_process_dependencies', 0) == trace.ret('_create_tasks'),
+                  self.tasks == trace.ret('_create_tasks'),
+                  trace.index('_process_dependencies') < trace.index('_build_graph'),
+                  trace.index('_build_graph') < trace.index('_init_objects'))
+
+
+TasksMapU = U('TasksMap')
+
+CONTRACTS += [
+    Contract(
+        id='C19.create_tasks', target='taskchain.utils.testing:TestChain._create_tasks', props={'C19': 'decisive'},
+        inputs={'self': test_chain_obj()},
+        callees={'taskchain.chain:Chain._create_task': ByContract(spec='create_spec', post='create_post')},
+        constructors={'taskchain.utils.testing:MockTask': _mock_ctor},
+        loops={0: Loop('ctk_inv0', vars={'task_class': TClsU, 'task': HTaskU}, cells={'tasks': Map(Str, HTaskU)}),
+               1: Loop('ctk_inv1', vars={'mock_task': Str, 'value': MockValU, 'name': Str}, cells={'tasks': Map(Str, HTaskU)})},
+        ensures={'mocks_supplied': 'ctk_mocks', 'real_created': 'ctk_real'}, canary='ctk_canary', l0=['A-dict'], searchable=False,
+    ),
+    Contract(
+        id='C19.mock.value', target='taskchain.utils.testing:MockTask.value', props={'C19': 'decisive'},
+        inputs={'self': Obj('taskchain.utils.testing:MockTask', _value=S(MockValU, 'value'))},
+        ensures={'supplied': 'mock_value_post'}, crash_invariant={}, searchable=False,
+    ),
+    Contract(
+        id='C19.mock.init', target='taskchain.utils.testing:MockTask.__init__', props={'C19': 'supporting'},
+        inputs={'self': Obj('taskchain.utils.testing:MockTask'), 'value': S(MockValU, 'value')},
+        callees={'taskchain.task:Task.__init__': ByContract(event='Task.__init__', pure=False)},
+        ensures={'keeps_value': 'mock_init_post'}, searchable=False,
+    ),
+    Contract(
+        id='C19.prepare', target='taskchain.utils.testing:TestChain._prepare', props={'C19': 'decisive'},
+        inputs={'self': Obj('taskchain.utils.testing:TestChain', _base_config=S(U('BaseCfg'), 'base_config'))},
+        callees={'taskchain.chain:Chain._process_config': ByContract(event='_process_config', pure=False),
+                 'taskchain.utils.testing:TestChain._create_tasks': ByContract(ret=TasksMapU, event='_create_tasks', pure=False),
+                 'taskchain.chain:Chain._process_dependencies': ByContract(event='_process_dependencies', pure=False),
+                 'taskchain.chain:Chain._build_graph': ByContract(event='_build_graph', pure=False),
+                 'taskchain.chain:Chain._init_objects': ByContract(event='_init_objects', pure=False)},
+        ensures={'construction_order': 'prep_order'}, searchable=False,
     ),
 ]
